@@ -3,6 +3,7 @@
   with an explicit model of Go's panic / defer / recover for one function frame.
 -/
 import ConnectModel.Options
+import ConnectModel.Basic
 namespace ConnectModel
 
 /-- values a handler may panic with, as far as recover.go distinguishes them -/
@@ -50,5 +51,21 @@ def recoverWrapUnary {α : Type} (isClient : Bool) (body : Outcome α) (onRecove
 def recoverWrapStreamingHandler {α : Type} (body : Outcome α) (onRecovered : PanicVal → α) :
     RecoverResult α :=
   recoverFrame body onRecovered
+
+/-! ### what the recovery function is told about the call (fix F21) -/
+
+/-- the call as the wrappers know it: procedure, stream type, request headers -/
+structure CallInfo where
+  procedure : Bytes
+  streamType : Nat
+  header : List (Bytes × List Bytes)
+  deriving DecidableEq, Repr
+
+/-- `WrapUnary`: `handle(ctx, req.Spec(), req.Header(), r)` -/
+def handleArgsUnary (call : CallInfo) : CallInfo := call
+/-- `WrapStreamingHandler` after fix F21: `handle(ctx, conn.Spec(), conn.RequestHeader(), r)` -/
+def handleArgsStreaming (call : CallInfo) : CallInfo := call
+/-- … and before: `handle(ctx, Spec{}, nil, r)` -/
+def handleArgsStreamingPinned (_ : CallInfo) : CallInfo := { procedure := [], streamType := 0, header := [] }
 
 end ConnectModel
